@@ -228,7 +228,9 @@ def gen_case(r, tier, res):
     kind = r.choices(["valid", "unsorted", "negfirst", "gate", "badtable", "odd"],
                      weights=[76, 5, 4, 5, 5, 5], k=1)[0]
     nlooms = r.choice([1, 1, 2, 2, 3, 4])
-    hosts = [f"node{i}" for i in range(nlooms)]
+    # host names whose string order differs from their numeric order, and that are prefixes of one another
+    hosts = r.sample(["node0", "node1", "node2", "node3", "node10", "node01", "n", "Node1"], nlooms) \
+        if r.random() < 0.3 else [f"node{i}" for i in range(nlooms)]
     looms = []
     for i, h in enumerate(hosts):
         if r.random() < 0.3:
@@ -251,7 +253,8 @@ def gen_case(r, tier, res):
         if not table:
             table = None
     streams = []
-    pid, tid = 0, 100
+    # process and thread numbers that cross digit boundaries (relpath order is strcmp order)
+    pid, tid = r.choice([0, 0, 7, 8, 97]), r.choice([100, 100, 1, 7, 96, 997])
     for li, loom in enumerate(looms):
         for _ in range(r.choice([1, 1, 2])):
             pid += 1
